@@ -11,6 +11,9 @@ import (
 	"encoding/json"
 	"fmt"
 	"math/rand"
+	"os"
+	"path/filepath"
+	"sort"
 	"strings"
 
 	"github.com/icon-project/goloop/common/db"
@@ -426,17 +429,7 @@ func runHistory(h histIn, wantCoq bool, corrupt bool) (coq string, ntbl int, ora
 					fail("%s(%x): after the operation failed with %v, Get returns %x (err=%v), last written %x", what, k, err, got, e2, ref[string(k)])
 				}
 			} else {
-				cur, stored := ref[string(k)]
-				if op.T == "fdel" && op.I > 0 && fired && stored && old == nil {
-					// known: extension.delete drops the error of its child (reads below an extension);
-					// counted, reported as a generator note, the content is unchanged
-					if got, _ := mut.Get(k); optEq(got, cur) {
-						swallowedBelowExtension++
-						emit("OIdent")
-						observe(mut.GetSnapshot(), what)
-						continue
-					}
-				}
+				cur := ref[string(k)]
 				if !optEq(old, cur) {
 					fail("%s(%x) with a transient read failure (fired=%v): returned %x and no error, last written %x", what, k, fired, old, cur)
 				}
@@ -585,10 +578,6 @@ func runHistory(h histIn, wantCoq bool, corrupt bool) (coq string, ntbl int, ora
 	return coq, table.Len(), oracle
 }
 
-// Delete calls that returned no error although an injected read failure below the root
-// prevented the deletion (see docs/notes/C17.md)
-var swallowedBelowExtension int
-
 func kvText(l []tl.KV) string {
 	var sb strings.Builder
 	for i, kv := range l {
@@ -609,11 +598,22 @@ func safeRun(h histIn, wantCoq bool) (coq string, ntbl int, oracle string) {
 }
 
 func gen(c *hxlib.Ctx) {
-	defer func() {
-		if swallowedBelowExtension > 0 {
-			c.Note("C17-DELETE-SWALLOWS-READ-ERROR: %d Delete calls returned (nil, nil) although an injected node read failure below the root prevented the deletion (extension.delete drops the error of its child); the content was unchanged", swallowedBelowExtension)
+	// corpus first: minimised past failures
+	files, _ := filepath.Glob("/verif/corpus/C17/*.json")
+	sort.Strings(files)
+	for _, f := range files {
+		b, err := os.ReadFile(f)
+		if err != nil {
+			continue
 		}
-	}()
+		var doc struct {
+			Input histIn `json:"input"`
+		}
+		if json.Unmarshal(b, &doc) == nil && len(doc.Input.Ops) > 0 {
+			coq, ntbl, msg := safeRun(doc.Input, !c.OracleOnly)
+			c.Emit(hxlib.Case{Kind: "corpus", Coq: coq, Input: doc.Input, Nontrivial: ntbl >= 1, OracleErr: msg, Key: filepath.Base(f)})
+		}
+	}
 	_ = db.MerkleTrie
 	n := c.N(180)
 	for i := 0; i < n; i++ {
